@@ -1023,6 +1023,13 @@ def rule_fr3(ctx: Ctx, lazy=False):
             if any(e.k == "decision" and e.test[0] in ("free",) and e.outcome for e in p.trace) or \
                     any(e.k == "decision" and e.test[0] == "not" and e.test[1][0] == "free" and not e.outcome for e in p.trace):
                 continue
+            for e in p.trace:
+                if e.k == "ucall" and e.d.get("name") == "open_obj" and not e.d.get("raised"):
+                    ok, text = _opener_args(e)
+                    r3.ob(ok, lambda e=e, text=text, cfg=cfg: Finding(
+                        "FR-3", "%s::read{opener-args}" % FILE, e.where(),
+                        "the open function of the caller must be given the path, the mode and the encoding keyword on every call (its documented prototype is "
+                        "open_obj(filename, mode, encoding)); on this path (%s) it is called with (%s)" % (cfg_str(cfg), text)))
             reads = [e for e in p.trace if e.k == "call" and e.d.get("method") == "read"]
             cut = p.truncated or any(e.k == "loopexit" and e.d.get("cut") for e in p.trace)
             ems = list(emissions(p))
@@ -1092,6 +1099,19 @@ def rule_fr3(ctx: Ctx, lazy=False):
 FH_SITES = {"file": (FILE, "write._write.on_subscribe", None), "parquet": ("rxsci/container/parquet.py", "_dump_parquet._dump.on_subscribe", "writer")}
 
 
+def _opener_args(e):
+    """(ok, text) for a call of the caller's open function: the documented prototype is open_obj(filename, mode, encoding)"""
+    args = e.d.get("args", [])
+    pos = [a for a in args if a[0] != "kw"]
+    kws = {a[1]: a[2] for a in args if a[0] == "kw"}
+    star = kws.get("**")
+    if star is not None and star[0] != "dict":
+        raise AnalysisError("%s: the open function is called with **%s, a mapping the rules cannot read" % (e.where(), show(star)))
+    has_enc = "encoding" in kws or (star is not None and ("const", "encoding") in star[1::2])
+    text = ", ".join(show(a[2]) if a[0] == "kw" and a[1] == "**" else ("%s=%s" % (a[1], show(a[2])) if a[0] == "kw" else show(a)) for a in args)
+    return bool(pos) and (len(pos) >= 2 or "mode" in kws) and has_enc, text
+
+
 def rule_fh1_file(ctx: Ctx):
     return _rule_fh1(ctx, ("file",))
 
@@ -1142,7 +1162,27 @@ def _rule_fh1(ctx: Ctx, which_sites):
         if len({k[0] for k in opens}) != 1 or any(len(v[2]) != 1 for v in opens.values()):
             raise AnalysisError("%s::%s: expected one call of the open function whose result is kept in a variable; found %s" % (
                 rel, suffix.split(".")[0], [v[0].brief() for v in opens.values()]))
-        _, conds, names = list(opens.values())[0]
+        # a test both outcomes of which lead to the same opening call says nothing about WHEN the file is opened (it chooses, say, how the
+        # arguments are put together): it is left out of the opening condition
+        allc = {v[1] for v in opens.values()}
+        for t in sorted({c[0] for cs in allc for c in cs}):
+            yes = {tuple(c for c in cs if c[0] != t) for cs in allc if (t, True) in cs}
+            no = {tuple(c for c in cs if c[0] != t) for cs in allc if (t, False) in cs}
+            if yes and yes == no:
+                allc = {tuple(c for c in cs if c[0] != t) for cs in allc}
+        if len(allc) != 1:
+            raise AnalysisError("%s::%s: the file is opened under %d different sets of conditions; FH-1 expects the single 'a path was given' test" % (
+                rel, suffix.split(".")[0], len(allc)))
+        conds, names = list(allc)[0], list(opens.values())[0][2]
+        if inner_close is None:
+            # what the caller's open function is given: the documented prototype is open_obj(filename, mode, encoding) -- the path, the mode
+            # and the encoding keyword on every call (an opener written to that prototype has three required parameters)
+            for e, _c, _n in opens.values():
+                ok, text = _opener_args(e)
+                r1.ob(ok, lambda e=e, text=text: Finding(
+                    "FH-1", "%s::%s{opener-args}" % (rel, suffix.split(".")[0]), e.where(),
+                    "the open function of the caller must be given the path, the mode and the encoding keyword on every call (its documented prototype is "
+                    "open_obj(filename, mode, encoding)); here it is called with (%s)" % text))
         if len(conds) != 1:
             raise AnalysisError("%s::%s: the file is opened under %d conditions; FH-1 expects the single 'a path was given' test" % (rel, suffix.split(".")[0], len(conds)))
         (ctest, cout), H = conds[0], names[0]
